@@ -15,6 +15,9 @@ def load_paux(name: str) -> Dict:
     except:
         log.warning('Failed to load {}'.format(name))
         return dict()
+    if not isinstance(data, dict):
+        log.warning('Ignoring {}: not a paux dictionary'.format(name))
+        return dict()
     return data
 
 
@@ -30,7 +33,11 @@ class externaldocument(Command):
             url = url.textContent.rstrip('/') + '/'
         labels = self.ownerDocument.context.labels
         for block in load_paux(pauxname).values():
+            if not isinstance(block, dict):
+                continue
             for lbl, val in block.items():
+                if not isinstance(lbl, str) or not isinstance(val, dict):
+                    continue
                 labels[prefix + lbl] = val
-                if url:
+                if url and 'url' in val:
                     labels[prefix + lbl]['url'] = url + labels[prefix + lbl]['url']
